@@ -95,6 +95,7 @@ def run_property(pid, spec, tier, seed, deadline=None):
         # failures
         seen_sig = {}
         unconfirmed = []
+        slow_cases = []
         for res in results:
             for f in res.get("failures", []):
                 key = (f["sig"], f["clause"])
@@ -164,6 +165,10 @@ def run_property(pid, spec, tier, seed, deadline=None):
                 ed = os.path.join(scratch, "rep"); shutil.rmtree(ed, ignore_errors=True); os.makedirs(ed)
                 rr = exec_harness(res["_exe"], r.args + ["--tier=" + tier, "--seed=%d" % seed, "--replay-index=%d" % f["index"]], r.env, ed)
                 reps.append(sorted((x["sig"], x["clause"], x["id"]) for x in rr.get("failures", [])))
+            if f["clause"] == "hang" and reps[0] == reps[1] and not any(x[2] == f["id"] for x in reps[0]):
+                # a case killed by the per-case time limit that completes without any failure when re-run alone (twice) was slow
+                # because of machine load, not hanging: not a finding and not a harness problem
+                slow_cases.append(f["id"]); continue
             if reps[0] != reps[1] or (f["sig"], f["clause"], f["id"]) not in reps[0]:
                 unconfirmed.append("replay of case %d (%s) did not reproduce the failure %s deterministically: %r" % (f["index"], f["id"], key, reps)); continue
             n = len(violations)
@@ -177,6 +182,8 @@ def run_property(pid, spec, tier, seed, deadline=None):
         # the check has no verdict (HARNESS-ERROR, exit 2); next to confirmed violations it is only mentioned
         if unconfirmed and not violations:
             raise HarnessError(unconfirmed[0])
+        for u in slow_cases[:5]:
+            lines.append("NOTE: case exceeded the per-case time limit under load and completed cleanly when re-run alone: " + u[:200])
         for u in unconfirmed[:5]:
             lines.append("UNCONFIRMED (not counted): " + u[:300])
         for xf in (spec["cross_check"](results) if spec.get("cross_check") else []):
